@@ -22,6 +22,7 @@ func runReader(sc *Scenario, out *Out) {
 		return
 	}
 	defer w.kill()
+	defer func() { tor.VerifYield = nil }()
 	if len(sc.Steps) == 0 || sc.Steps[0].A != "Init" {
 		out.Note = "no Init"
 		return
@@ -96,10 +97,27 @@ func runReader(sc *Scenario, out *Out) {
 		case "Read":
 			done := make(chan rres, 1)
 			buf := make([]byte, st.N)
+			// in one Read out of three the piece under the cursor is verified and announced
+			// exactly between Torrent.Request's look at the store and its queueing
+			yieldCh := make(chan struct{})
+			resumeCh := make(chan struct{})
+			armed := (sc.ID+k)%3 == 0 && !dead && !cancelled
+			var rdGoid int64
+			tor.VerifYield = func(point string) {
+				if armed && goid() == rdGoid {
+					armed = false
+					yieldCh <- struct{}{}
+					<-resumeCh
+				}
+			}
+			started := make(chan struct{})
 			go func() {
+				rdGoid = goid()
+				close(started)
 				n, err := r.Read(buf)
 				done <- rres{n, err, buf}
 			}()
+			<-started
 			var res rres
 			got := false
 			idle := 0
@@ -107,6 +125,17 @@ func runReader(sc *Scenario, out *Out) {
 				select {
 				case res = <-done:
 					got = true
+				case <-yieldCh:
+					i := int((sc.Offset + pos) / int64(w.psize))
+					if i < w.npieces && !w.t.Pieces.Complete(uint32(i)) {
+						w.verify(i)
+						w.t.Have(uint32(i), true)
+						w.pushGates()
+						if w.park() {
+							w.releaseAll()
+						}
+					}
+					close(resumeCh)
 				case <-time.After(3 * time.Millisecond):
 					if dead {
 						idle++
